@@ -187,6 +187,7 @@ func (r *Runtime) newPromiseResolveThenableJob(p *Promise, thenable Value, then 
 }
 
 func (r *Runtime) enqueuePromiseJob(job func()) {
+	job = verifJob(r, job)
 	r.jobQueue = append(r.jobQueue, job)
 }
 
